@@ -208,6 +208,7 @@ def run(chk, scratch):
             if r["rc"] != 0:
                 chk.violation("run-failed", "%s: %s" % (desc, pipeline.fail_text(r)), wit)
                 continue
+            verdict = {}
             for e in runner.load_events(ev):
                 if e["k"] != "resolve":
                     continue
@@ -215,10 +216,29 @@ def run(chk, scratch):
                 chk.note()
                 for key, text in multimap.judge(e["before"], e["after"]):
                     chk.violation("pipeline:" + key, "%s: read %s: %s" % (desc, e["before"][0]["read"], text), wit)
+                verdict[e["before"][0]["read"]] = e["after"]
             o = pipeline.Outputs(out)
             recs = defaultdict(set)
             for a in o.assignments():
                 recs[a.read_id].add((a.chr, tuple(a.exons), a.isoform, a.atype))
+            # the resolver's verdict is what the outputs show: every printed record lies on a retained alignment, every retained
+            # alignment that carries an assignment is printed (alignments of one read on ONE chromosome are told apart by position)
+            for rid, after in verdict.items():
+                kept = [(x["chr"], x["start"], x["end"], x["type"]) for x in after if x["type"] != "suspended"]
+                dropped = [(x["chr"], x["start"], x["end"]) for x in after if x["type"] == "suspended"]
+                printed = set((c, e[0][0], e[-1][1]) for c, e, i, t in recs.get(rid, ()) if e)
+
+                def hits(loc, lst):
+                    return any(loc[0] == k[0] and loc[1] <= k[2] and k[1] <= loc[2] for k in lst)
+                chk.count("verdicts_compared_with_outputs")
+                for loc in printed:
+                    if not hits(loc, kept) and hits(loc, dropped):
+                        chk.violation("suspended-alignment-printed", "%s: read %s is printed at %s:%d-%d, an alignment the resolver suspended (kept: %s)" %
+                                      (desc, rid, loc[0], loc[1], loc[2], kept[:3]), wit)
+                for k in kept:
+                    if k[3] not in ("noninformative", "intergenic") and not hits(k, list(printed)):
+                        chk.violation("retained-alignment-not-printed", "%s: read %s: the resolver kept %s:%d-%d (%s) but no record is printed there (printed: %s)" %
+                                      (desc, rid, k[0], k[1], k[2], k[3], sorted(printed)[:3]), wit)
             bed = defaultdict(set)
             for b in o.bed():
                 bed[b.name].add((b.chr, b.start, b.end))
